@@ -34,3 +34,56 @@ def untyped(x: Var) -> Var:
         y = Opaque(Opaque.Attributes(), Opaque.Inputs(x)).outputs.Y
     assert y.type is None
     return y
+
+
+class Twice(Node):
+    """A user-defined operator WITH a type hook, in its own domain (fixed composition scenarios of C18)."""
+    op_type = OpType("Twice", "verif.c18fix", 3)
+
+    @dataclass
+    class Attributes(BaseAttributes):
+        pass
+
+    @dataclass
+    class Inputs(BaseInputs):
+        X: Var
+
+    @dataclass
+    class Outputs(BaseOutputs):
+        Y: Var
+
+    def infer_output_types(self):
+        return {"Y": self.inputs.X.type} if self.inputs.X.type is not None else {}
+
+    attrs: Attributes
+    inputs: Inputs
+    outputs: Outputs
+
+
+from typing import Optional, Sequence  # noqa: E402
+
+
+class Pack(Node):
+    """optional input + variadic input (fixed composition scenarios of C18)."""
+    op_type = OpType("Pack", "verif.c18fix", 3)
+
+    @dataclass
+    class Attributes(BaseAttributes):
+        pass
+
+    @dataclass
+    class Inputs(BaseInputs):
+        first: Optional[Var]
+        rest: Sequence[Var]
+
+    @dataclass
+    class Outputs(BaseOutputs):
+        Y: Var
+
+    def infer_output_types(self):
+        r = list(self.inputs.rest)
+        return {"Y": r[0].type} if r and r[0].type is not None else {}
+
+    attrs: Attributes
+    inputs: Inputs
+    outputs: Outputs
